@@ -127,6 +127,12 @@ fn time_len(l: Len) -> length::Time {
     }
 }
 
+/// `reference` for a number / currency spec with an explicit decimal (used for the f64 route).
+pub fn reference_with_decimal(spec: Spec, loc: &str, fd: &FixedDecimal) -> Result<String, String> {
+    let v = Val { id: 0, num: fd.clone(), date: (2000, 1, 1), time: (0, 0, 0), list: vec![] };
+    reference(spec, loc, &v)
+}
+
 /// Stateless reference: construct the ICU4X formatter for (locale, options), format, drop it.
 /// `Err` when ICU4X itself cannot build such a formatter (then nothing can be compared).
 pub fn reference(spec: Spec, loc: &str, v: &Val) -> Result<String, String> {
@@ -183,6 +189,27 @@ pub fn reference(spec: Spec, loc: &str, v: &Val) -> Result<String, String> {
             Ok(f.format_to_string(v.list().into_iter()))
         }
     }
+}
+
+pub const F64S: &[f64] = &[0.0, 0.5, 1.0, -1.5, 2000.5, 1234.5678, 1e15, 0.1, 99999.99];
+
+/// The documented conversion of an `f64`: `FixedDecimal::try_from_f64` with floating precision.
+pub fn f64_to_fixed(x: f64) -> FixedDecimal {
+    FixedDecimal::try_from_f64(x, fixed_decimal::FloatPrecision::Floating).expect("finite pool value")
+}
+
+pub fn reference_plural_category(ordinal: bool, loc: &str, count: u64) -> Result<&'static str, String> {
+    let locale = icu_locale(loc);
+    let ty = if ordinal { PluralRuleType::Ordinal } else { PluralRuleType::Cardinal };
+    let rules = PluralRules::try_new(&(&locale).into(), ty).map_err(|e| e.to_string())?;
+    Ok(match rules.category_for(count) {
+        PluralCategory::Zero => "zero",
+        PluralCategory::One => "one",
+        PluralCategory::Two => "two",
+        PluralCategory::Few => "few",
+        PluralCategory::Many => "many",
+        PluralCategory::Other => "other",
+    })
 }
 
 pub fn reference_plural(ordinal: bool, loc: &str, count: u64) -> Result<String, String> {
